@@ -590,6 +590,11 @@ inductive Op where
   | setCmp (which : Nat) (o : VL)
   -- system.py
   | unpack (names : List (List Char)) (k : Nat)
+  -- a second (third...) consumer of the expression's own `$` inside one expression
+  | zipRoot (skips : List Int)          -- `recv.zip($.skip(a), $.skip(b)...)`
+  | joinRoot (pred sel : Lam2)          -- `recv.join($, pred, sel)`
+  | concatRoot (n : Int)                -- `recv.concat($.skip(n))`
+  | partialThenFull (k : Int)           -- `[$.take(k).toList(), $.toList(), $.len()]`
 deriving Repr, Inhabited
 
 def optLam (l : Option Lam) : Lam := l.getD .arg
@@ -1092,6 +1097,7 @@ def runOp1 (op : Op) (o : Obj) : R Obj :=
       | 1 => setLe a other
       | 2 => setLt other a
       | _ => setLe other a)))
+  | .zipRoot _ | .joinRoot _ _ | .concatRoot _ | .partialThenFull _ => .error .outOfDomain   -- see `runOpR`
   | .unpack names k => do
     let s ← o.it
     -- the length probe pulls len(names)+1 elements; with no names everything is pulled
@@ -1127,6 +1133,54 @@ def runOp (op : Op) (o : Obj) : R Obj := do
   match r with
   | .val (dict d) => pure (if mutableResult op then .mdict d else r)
   | r => pure r
+
+/-- the elements every fresh iteration of the expression's own `$` yields, when `$` can be iterated
+    more than once: a sequence / input set, or a one-shot iterator that was memorized by the binder
+    (`let($.memorize()) -> ...`, `let($.defaultIfEmpty(d)) -> ...`).  By `memorize_interleaved`
+    (Props/C13) every iterator of a memorized source yields the whole source, however the consumers
+    interleave - so the list-level functions apply. -/
+def rootItems (binder : Option Op) (data : Value) : Option VL :=
+  match binder, data with
+  | none, tuple l | none, list l | none, Value.set l => some l
+  | some .memorize, tuple l | some .memorize, list l | some .memorize, Value.set l | some .memorize, iter l => some l
+  | some (.defaultIfEmpty d), tuple l | some (.defaultIfEmpty d), list l | some (.defaultIfEmpty d), Value.set l
+  | some (.defaultIfEmpty d), iter l => some (if l.isEmpty then d else l)
+  | _, _ => none
+
+/-- operations that iterate the root `$` again -/
+def runOpR (root : Option VL) (op : Op) (o : Obj) : R Obj :=
+  match op with
+  | .zipRoot skips =>
+    match root with
+    | none => .error .outOfDomain
+    | some xs => do
+      let _ ← o.it            -- the receiver is evaluated first
+      if skips.any (· < 0) then .error .value
+      else runOp (.zip (skips.map fun n => xs.drop n.toNat)) o
+  | .joinRoot pred sel =>
+    match root with
+    | none => .error .outOfDomain
+    | some xs => runOp (.join xs pred sel) o
+  | .concatRoot n =>
+    match root with
+    | none => .error .outOfDomain
+    | some xs => do
+      let _ ← o.it
+      if n < 0 then .error .value else runOp (.concat [xs.drop n.toNat]) o
+  | .partialThenFull k =>
+    match root with
+    | none => .error .outOfDomain
+    | some xs => if k < 0 then .error .value
+                 else .ok (.val (tuple [tuple (xs.take k.toNat), tuple xs, int xs.length]))
+  | op => runOp op o
+
+/-- `let(binder($)) -> $.op1(...).op2(...)...` (or without binder), then finalisation -/
+def runPipeLet (binder : Option Op) (ops : List Op) (data : Value) : R Value := do
+  let root ← match binder with
+    | none => pure (Obj.ofValue data)
+    | some b => runOp b (Obj.ofValue data)
+  let o ← ops.foldlM (fun o op => runOpR (rootItems binder data) op o) root
+  finalise o
 
 /-- a pipeline `$.op1(...).op2(...)...`, then finalisation of the result -/
 def runPipe (ops : List Op) (data : Value) : R Value := do
